@@ -10,6 +10,7 @@ import GunYu.Proofs.Rdb.Crc64
 import GunYu.Proofs.Rdb.Read
 import GunYu.Proofs.Rdb.Chunk
 import GunYu.Proofs.Rdb.StreamNode
+import GunYu.Proofs.Rdb.Frame
 
 namespace GunYu.Props.C03
 open GunYu GunYu.Rdb GunYu.RedisSem
@@ -267,6 +268,20 @@ theorem stream_roundtrip_partial (key : Bytes) (nodes : List SNodeE) (rest : Byt
     streamNodes key nodes.length (nodes.flatMap SNodeE.enc ++ rest) =
       some (nodes.flatMap (fun n => n.live.map (fun p => cmdB b!"XADD" (key :: p.1 :: p.2))), rest) :=
   streamNodes_spec key nodes rest hwf
+
+/-! ## The file frame -/
+
+/-- magic and version: every file the specification writes for RDB versions
+    1 … 13 passes `Loader.Header`, which returns that version -/
+theorem header_roundtrip (f : FileE) (h1 : 1 ≤ f.version) (h13 : f.version ≤ 13) (rest : Bytes) :
+    header (b!"REDIS" ++ verDigits f.version ++ rest) = some (f.version, rest) :=
+  header_file f h1 h13 rest
+
+/-- EOF and checksum: the 8 bytes after the EOF opcode — the little-endian
+    CRC-64/Jones of everything before them, or eight zero bytes — pass `Loader.Footer` -/
+theorem footer_roundtrip (f : FileE) (hnb : f.footer ≠ .bad) :
+    footer (rdbFile f) ((rdbFile f).drop f.body.length) = true :=
+  footer_file f hnb
 
 /-! ## The two replay paths -/
 
